@@ -1164,7 +1164,7 @@ func condOp(lhs, rhs any, lhsT, rhsT ast.DType, op ast.Op) (any, ast.DType, erro
 			if dtype == ast.Float {
 				return cast.ToFloat64(lhs) == cast.ToFloat64(rhs), ast.Bool, nil
 			}
-			return cast.ToFloat64(lhs) == cast.ToFloat64(rhs), ast.Bool, nil
+			return cast.ToInt64(lhs) == cast.ToInt64(rhs), ast.Bool, nil
 		case ast.String:
 			if rhsT != ast.String {
 				return false, ast.Bool, nil
@@ -1191,7 +1191,7 @@ func condOp(lhs, rhs any, lhsT, rhsT ast.DType, op ast.Op) (any, ast.DType, erro
 			if dtype == ast.Float {
 				return cast.ToFloat64(lhs) != cast.ToFloat64(rhs), ast.Bool, nil
 			}
-			return cast.ToFloat64(lhs) != cast.ToFloat64(rhs), ast.Bool, nil
+			return cast.ToInt64(lhs) != cast.ToInt64(rhs), ast.Bool, nil
 		case ast.String:
 			if rhsT != ast.String {
 				return true, ast.Bool, nil
